@@ -13,8 +13,11 @@ package actionlint
 
 import (
 	"fmt"
+	"os"
 	"strings"
 	"testing"
+
+	"gopkg.in/yaml.v3"
 )
 
 type c13Mut struct {
@@ -492,6 +495,62 @@ func TestVerifC13(t *testing.T) {
 		}
 	}
 	r.Bounds["mappings"] = mappings
+	// the block mappings of the repository's own clean workflows whose place in the schema is known:
+	// the same key mutations (without the sibling dimension)
+	repo := os.Getenv("VERIF_REPO")
+	if repo == "" {
+		repo = "/repo"
+	}
+	corpus := vCorpusCatalogues(repo, true)
+	r.Bounds["corpus_workflows"] = len(corpus)
+	cm, skippedYAML := 0, 0
+	for _, c := range corpus {
+		for _, m := range c.Mappings {
+			if m.Flow || len(m.Keys) == 0 {
+				continue
+			}
+			complete := true
+			var keyNames []string
+			for _, k := range m.Keys {
+				keyNames = append(keyNames, k.Value)
+				if k.Len != len(k.Value) || k.EndLine < k.Line {
+					complete = false // quoted / unlocatable key: line arithmetic not safe
+				}
+			}
+			// every line of the mapping must belong to one of its keys at the mapping's indentation
+			// (no comments or blank lines in between: insertion points are computed from key lines)
+			for l := m.Line; complete && l <= m.EndLine && l <= len(c.Lines); l++ {
+				t := strings.TrimSpace(c.Lines[l-1])
+				if t == "" || strings.HasPrefix(t, "#") {
+					complete = false
+				}
+			}
+			sch, ok := vMappingSchemaOf(m.NPath, keyNames)
+			if !ok || sch.Free || !complete {
+				continue
+			}
+			cm++
+			for _, mu := range c13Mutations(c, m, sch) {
+				mu := mu
+				idx++
+				if !r.Mine(idx) {
+					continue
+				}
+				if idx%512 == 0 && r.Expired() {
+					return
+				}
+				var probe yaml.Node
+				if yaml.Unmarshal([]byte(mu.src), &probe) != nil {
+					skippedYAML++ // the line arithmetic does not fit this file (block scalars, comments): not a case
+					continue
+				}
+				r.Begin(func() string { return fmt.Sprintf("%s %s %s %s", c.Seed, m.Path, mu.kind, mu.key) })
+				c13Judge(r, c, m, sch, &mu, nil)
+			}
+		}
+	}
+	r.Extra["sum_corpus_mutations_not_yaml_skipped"] = float64(skippedYAML)
+	r.Bounds["corpus_mappings"] = cm
 }
 
 func lastSeg(p string) string {
